@@ -187,8 +187,27 @@ def g1(prog, ctx):
                 ctx.fail("G1", c, q, src(c)[:80], "GTF handle written outside GFFPrinter.dump: bypasses the validation gate")
 
 
+def reference_constructor(prog):
+    """The copy constructor of reference models: TranscriptModel.from_reference_transcript, or - under another name - the one class/static
+    method of TranscriptModel that creates the object with __new__ and gives it the type `known`."""
+    f = prog.try_func(GI, "TranscriptModel.from_reference_transcript")
+    if f is not None:
+        return f
+    cls = prog.cls(GI, "TranscriptModel")
+    cands = []
+    for st in cls.body:
+        if isinstance(st, ast.FunctionDef) and any(src(d) in ("classmethod", "staticmethod") for d in st.decorator_list) \
+                and any(isinstance(c, ast.Call) and src(c.func).endswith(".__new__") for c in walk_no_nested(st)) \
+                and any(isinstance(a, ast.Assign) and src(a.value) == "TranscriptModelType.known" for a in walk_no_nested(st)):
+            cands.append(st)
+    if len(cands) != 1:
+        raise AnalysisError("the copy constructor of reference transcript models (TranscriptModel.from_reference_transcript) not found")
+    return cands[0]
+
+
 def g2(prog, ctx):
     # who creates `known` models
+    ctor = reference_constructor(prog)
     sites = []
     for rel in sorted(prog.modules):
         for node in ast.walk(prog.modules[rel].tree):
@@ -207,14 +226,14 @@ def g2(prog, ctx):
     for node, st in sites:
         fn = enclosing_function(node)
         fq = getattr(fn, "_qualname", "<module>")
-        if node._module.rel == GI and fq == "TranscriptModel.from_reference_transcript":
+        if fn is ctor:
             ctx.ok("G2", "%s:%d" % (GI, node.lineno), "known type assigned in the copy constructor")
         elif isinstance(st, ast.Assign) and isinstance(st.targets[0], ast.Name) and not fn:
             continue
         else:
             ctx.fail("G2", node, fq, src(st), "a transcript model is given type `known` outside TranscriptModel.from_reference_transcript")
     ctx.floor("G2", "sites assigning TranscriptModelType.known", len(sites), 1)
-    f = prog.func(GI, "TranscriptModel.from_reference_transcript")
+    f = ctor
     want = {"exon_blocks": "gene_info.all_isoforms_exons[isoform_id]", "strand": "gene_info.isoform_strands[isoform_id]",
             "gene_id": "gene_info.gene_id_map[isoform_id]", "transcript_id": "isoform_id", "chr_id": "gene_info.chr_id"}
     got = {}
@@ -229,32 +248,101 @@ def g2(prog, ctx):
             ctx.ok("G2", "%s:%d" % (GI, f.lineno), "reference model %s <- %s" % (fld, w))
     # extended storage: every reference isoform and every novel model, unfiltered
     ce = prog.func(TP, "create_extended_storage")
-    ref_loop = [l for l in walk_no_nested(ce) if isinstance(l, ast.For) and "all_isoforms_exons" in src(l.iter)]
-    nov_loops = [l for l in walk_no_nested(ce) if isinstance(l, ast.For) and src(l.iter) == ce.args.args[3].arg]
-    # the list that is returned (first element of the returned pair)
-    out_lists = {src(r.value.elts[0]) for r in walk_no_nested(ce) if isinstance(r, ast.Return) and isinstance(r.value, ast.Tuple) and r.value.elts}
-    outl = out_lists.pop() if len(out_lists) == 1 else "?"
-    okref = len(ref_loop) == 1 and len(ref_loop[0].body) == 1 and "from_reference_transcript(" in src(ref_loop[0].body[0]) \
-        and (outl + ".append") in src(ref_loop[0].body[0])
-    oknov = nov_loops and all(len(l.body) == 1 and src(l.body[0]) == "%s.append(%s)" % (outl, src(l.target)) for l in nov_loops)
-    if not okref:
-        ctx.fail("G2", ce, ce._qualname, "reference loop", "extended storage does not append one reference model for every annotated isoform")
-    else:
-        ctx.ok("G2", "%s:%d" % (TP, ref_loop[0].lineno), "one reference model per key of all_isoforms_exons, unconditionally")
-    if not oknov:
-        ctx.fail("G2", ce, ce._qualname, "novel loop", "novel models are filtered or altered when building the extended storage")
-    else:
-        ctx.ok("G2", "%s:%d" % (TP, nov_loops[0].lineno), "every novel model appended unchanged (%d loops)" % len(nov_loops))
-    # ... on EVERY return path (e.g. also for a chromosome without annotated genes)
+    novel_param = ce.args.args[3].arg
+
+    def elem_kind(elem, var, it):
+        """what one generated element is: a reference model per annotated isoform / a novel model handed in, unchanged"""
+        if "all_isoforms_exons" in src(it) and isinstance(elem, ast.Call) and (call_name(elem) or "").split(".")[-1] == ctor.name \
+                and any(src(a) == var for a in list(elem.args) + [k.value for k in elem.keywords]):
+            return "ref"
+        if src(it) == novel_param and src(elem) == var:
+            return "novel"
+        return "unknown"
+
+    def parts(e, path_stmts, depth=0):
+        if depth > 4:
+            return ["unknown"]
+        if isinstance(e, ast.BinOp) and isinstance(e.op, ast.Add):
+            return parts(e.left, path_stmts, depth + 1) + parts(e.right, path_stmts, depth + 1)
+        if isinstance(e, ast.Call) and call_name(e) == "list" and len(e.args) == 1:
+            return ["novel"] if src(e.args[0]) == novel_param else parts(e.args[0], path_stmts, depth + 1)
+        if isinstance(e, ast.ListComp) and len(e.generators) == 1 and not e.generators[0].ifs:
+            return [elem_kind(e.elt, src(e.generators[0].target), e.generators[0].iter)]
+        if isinstance(e, ast.ListComp) and len(e.generators) == 1 and e.generators[0].ifs:
+            k_ = elem_kind(e.elt, src(e.generators[0].target), e.generators[0].iter)
+            return ["filtered:" + k_] if k_ != "unknown" else ["unknown"]
+        if isinstance(e, ast.List) and not e.elts:
+            return []
+        if isinstance(e, ast.Name):
+            out = []
+            for st in path_stmts:
+                if isinstance(st, ast.Assign) and len(st.targets) == 1 and src(st.targets[0]) == e.id:
+                    out = parts(st.value, path_stmts, depth + 1)
+                elif isinstance(st, ast.AugAssign) and src(st.target) == e.id and isinstance(st.op, ast.Add):
+                    out = out + parts(st.value, path_stmts, depth + 1)
+                elif isinstance(st, ast.For) and any(isinstance(x, ast.Call) and src(x.func) in (e.id + ".append", e.id + ".extend")
+                                                     for x in ast.walk(st)):
+                    if len(st.body) == 1 and isinstance(st.body[0], ast.Expr) and isinstance(st.body[0].value, ast.Call) \
+                            and src(st.body[0].value.func) == e.id + ".append" and len(st.body[0].value.args) == 1:
+                        out = out + [elem_kind(st.body[0].value.args[0], src(st.target), st.iter)]
+                    else:
+                        # the same append, but under a condition: the pass over the source is filtered
+                        cond_app = [x for x in ast.walk(st) if isinstance(x, ast.Call) and src(x.func) == e.id + ".append" and len(x.args) == 1]
+                        kinds = {elem_kind(x.args[0], src(st.target), st.iter) for x in cond_app}
+                        if len(kinds) == 1 and "unknown" not in kinds and any(isinstance(y, ast.If) for y in ast.walk(st)):
+                            out = out + ["filtered:" + kinds.pop()]
+                        else:
+                            out = out + ["unknown"]
+                elif isinstance(st, ast.Expr) and isinstance(st.value, ast.Call) and src(st.value.func) == e.id + ".extend" and st.value.args:
+                    out = out + parts(st.value.args[0], path_stmts, depth + 1)
+                elif isinstance(st, ast.Expr) and isinstance(st.value, ast.Call) and src(st.value.func).startswith(e.id + "."):
+                    out = out + ["unknown"]
+            return out
+        return ["unknown"]
+
+    n_ret = with_ref = 0
     for p in flow.paths(ce):
         if p.exit != "return" or not isinstance(p.exit_node, ast.Return) or p.exit_node.value is None:
             continue
-        passed = any(isinstance(s_, ast.For) and any(s_ is l for l in nov_loops) for s_ in p.stmts())
-        if not passed:
+        rv = p.exit_node.value
+        if not (isinstance(rv, ast.Tuple) and rv.elts):
+            ctx.undecided("G2", p.exit_node, ce._qualname, "create_extended_storage does not return a (models, gene_info) pair here")
+            continue
+        n_ret += 1
+        # statements of the path, loops once (not their bodies)
+        top = []
+        skip = set()
+        for st_ in p.stmts():
+            if id(st_) in skip:
+                continue
+            top.append(st_)
+            if isinstance(st_, (ast.For, ast.While)):
+                skip |= {id(x) for x in ast.walk(st_) if x is not st_}
+        got = parts(rv.elts[0], top)
+        annotated = any(isinstance(x, ast.Call) and call_name(x) == "GeneInfo" for st_ in top for x in ast.walk(st_))
+        filt = [g_ for g_ in got if g_.startswith("filtered:")]
+        if filt:
+            ctx.fail("G2", p.exit_node, ce._qualname, "%s models filtered" % filt[0].split(":")[1],
+                     "the %s models enter the extended storage under a condition: %s" % (
+                         "novel" if filt[0].endswith("novel") else "reference",
+                         "novel models are filtered or altered when building the extended storage - transcripts printed to transcript_models.gtf "
+                         "are missing from extended_annotation.gtf" if filt[0].endswith("novel") else
+                         "extended storage does not contain one reference model for every annotated isoform"), path=p.describe())
+        elif "unknown" in got:
+            ctx.undecided("G2", p.exit_node, ce._qualname, "the returned model list is built in a way the rule cannot follow on path [%s]: %s"
+                          % (p.describe()[:80], got))
+        elif got.count("novel") != 1:
             ctx.fail("G2", p.exit_node, ce._qualname, src(p.exit_node), "on this path the extended storage is returned without the novel "
-                     "models: transcripts printed to transcript_models.gtf are missing from extended_annotation.gtf", path=p.describe())
+                     "models (or with them twice): transcripts printed to transcript_models.gtf are missing from extended_annotation.gtf",
+                     path=p.describe())
+        elif annotated and got.count("ref") != 1:
+            ctx.fail("G2", ce, ce._qualname, "reference loop", "extended storage does not contain one reference model for every annotated "
+                     "isoform (unfiltered pass over all_isoforms_exons) on the path that loads the annotation", path=p.describe())
         else:
-            ctx.ok("G2", "%s:%d" % (TP, p.exit_node.lineno), "return path includes all novel models (%s)" % p.describe()[:60])
+            with_ref += "ref" in got
+            ctx.ok("G2", "%s:%d" % (TP, p.exit_node.lineno), "return path yields %s, unfiltered (%s)" % (" + ".join(got), p.describe()[:60]))
+    if n_ret and not with_ref and not ctx.undecideds:
+        ctx.fail("G2", ce, ce._qualname, "reference loop", "extended storage does not append one reference model for every annotated isoform")
     # the novel models handed over are exactly the non-known models printed to transcript_models.gtf
     cm = prog.func("src/dataset_processor.py", "construct_models_in_parallel")
     from ..engine import argswap
@@ -282,6 +370,7 @@ def g2(prog, ctx):
 
 def g3(prog, ctx):
     """In-place mutations of exon lists / strand of models must not reach reference models."""
+    _ctor_name = reference_constructor(prog).name
     sites = []
     for m, q, f in prog.all_functions():
         for n in walk_no_nested(f):
@@ -291,9 +380,9 @@ def g3(prog, ctx):
                     if isinstance(t, ast.Subscript) and src(t.value).endswith(".exon_blocks"):
                         tgt = ("subscript-store", t)
                     elif isinstance(t, ast.Attribute) and t.attr in ("exon_blocks", "strand") and not src(t.value) in ("self",) \
-                            and not (f.name in ("__init__", "from_reference_transcript") ):
+                            and not (f.name in ("__init__", _ctor_name)):
                         # assigning the field of an existing model object
-                        if isinstance(t.value, ast.Name) and t.value.id in ("self", "cls", "transcript_model") and f.name in ("__init__", "from_reference_transcript"):
+                        if isinstance(t.value, ast.Name) and t.value.id in ("self", "cls", "transcript_model") and f.name in ("__init__", _ctor_name):
                             continue
                         tgt = ("field-store", t)
             elif isinstance(n, ast.Delete):
@@ -317,7 +406,7 @@ def g3(prog, ctx):
                            and x.attr in ("exon_blocks", "transcript_type", "transcript_id", "intron_path") for x in walk_no_nested(f))
             if base in ("self", "cls") or not as_model:
                 continue
-        if kind == "field-store" and f.name in ("__init__", "from_reference_transcript", "from_models", "from_model", "from_region", "deserialize"):
+        if kind == "field-store" and f.name in ("__init__", _ctor_name, "from_models", "from_model", "from_region", "deserialize"):
             continue
         checked += 1
         st = n
@@ -408,12 +497,35 @@ def g5(prog, ctx):
                     return True
         return False
     n = 0
+    from ..engine.argswap import bind_args
+    ctor = reference_constructor(prog)
+    id_param = next((src(st.value) for st in walk_no_nested(ctor) if isinstance(st, ast.Assign) and isinstance(st.targets[0], ast.Attribute)
+                     and st.targets[0].attr == "transcript_id" and isinstance(st.value, ast.Name)), None)
+    # thin wrappers: methods that only return the constructor's result
+    wrappers = {}
+    for name, f in meths.items():
+        rets = [r for r in walk_no_nested(f) if isinstance(r, ast.Return)]
+        if len(f.body) <= 2 and len(rets) == 1 and isinstance(rets[0].value, ast.Call) and (call_name(rets[0].value) or "").split(".")[-1] == ctor.name:
+            b = bind_args(rets[0].value, ctor)
+            if id_param in b and isinstance(b[id_param], ast.Name) and b[id_param].id in [a.arg for a in f.args.args]:
+                wrappers[name] = b[id_param].id
     for name, f in sorted(meths.items()):
+        if name in wrappers:
+            continue
         for c in walk_no_nested(f):
-            if not (isinstance(c, ast.Call) and isinstance(c.func, ast.Attribute) and c.func.attr == "transcript_from_reference" and c.args):
+            if not (isinstance(c, ast.Call) and isinstance(c.func, ast.Attribute) and c.args):
+                continue
+            if c.func.attr in wrappers:
+                karg = bind_args(c, meths[c.func.attr]).get(wrappers[c.func.attr])
+            elif c.func.attr == ctor.name and id_param:
+                karg = bind_args(c, ctor).get(id_param)
+            else:
+                continue
+            if karg is None:
+                ctx.undecided("G5", c, "GraphBasedModelConstructor." + name, "isoform id argument of %s not identified" % src(c)[:60])
                 continue
             n += 1
-            key = src(c.args[0])
+            key = src(karg)
             st = enclosing_stmt(c)
             blk = getattr(st._parent, "body", []) if st in getattr(st._parent, "body", []) else getattr(st._parent, "orelse", [])
             registers = any(isinstance(x, ast.Expr) and isinstance(x.value, ast.Call) and src(x.value.func).endswith("." + REG + ".add")
@@ -612,7 +724,64 @@ def g8(prog, ctx):
     ctx.floor("G8", "merge_genes call sites", n, 2)
 
 
+def g10(prog, ctx):
+    """Reference transcripts are reproduced verbatim because the exon list of an isoform is the list of the annotation's exon records: what is
+    stored in all_isoforms_exons is built only by appending (record.start, record.end) for the records of the transcript, untransformed."""
+    f = prog.func(GI, "GeneInfo.set_introns_and_exons")
+    stores = [st for st in walk_no_nested(f) if isinstance(st, ast.Assign) and isinstance(st.targets[0], ast.Subscript)
+              and src(st.targets[0].value) == "all_isoforms_exons"]
+    if not stores:
+        ctx.undecided("G10", f, f._qualname, "no store into all_isoforms_exons found")
+        return
+    n = 0
+    for st in stores:
+        n += 1
+        v = st.value
+        if isinstance(v, ast.Call):
+            ctx.fail("G10", st, f._qualname, src(st)[:90], "the exon list of a reference isoform passes through %s(...) before it is stored: "
+                     "transcripts are then printed with other exon records than the annotation has (from_reference_transcript copies "
+                     "this table into both GTFs)" % (call_name(v) or src(v.func)))
+            continue
+        if not isinstance(v, ast.Name):
+            ctx.undecided("G10", st, f._qualname, "stored exon list %s is not a plain local" % src(v)[:50])
+            continue
+        # the life of the list that is stored: the body of the per-transcript loop the store belongs to
+        scope_loops = flow.enclosing_loops(st)
+        scope = scope_loops[-1] if scope_loops else f
+        muts = [c for c in walk_no_nested(scope) if isinstance(c, ast.Call) and isinstance(c.func, ast.Attribute) and src(c.func.value) == v.id]
+        defs = [a for a in walk_no_nested(scope) if isinstance(a, (ast.Assign, ast.AugAssign))
+                and any(src(t) == v.id for t in (a.targets if isinstance(a, ast.Assign) else [a.target]))]
+        bad = None
+        for a in defs:
+            if not (isinstance(a, ast.Assign) and isinstance(a.value, ast.List) and not a.value.elts):
+                bad = a
+        for c in muts:
+            ok = c.func.attr == "append" and len(c.args) == 1 and isinstance(c.args[0], ast.Tuple) and len(c.args[0].elts) == 2 \
+                and [getattr(e, "attr", None) for e in c.args[0].elts] == ["start", "end"] \
+                and len({src(e.value) for e in c.args[0].elts}) == 1
+            if ok:
+                rec = src(c.args[0].elts[0].value)
+                lps = [l for l in flow.enclosing_loops(c) if isinstance(l, ast.For) and src(l.target) == rec]
+                ok = bool(lps) and ".children(" in src(lps[-1].iter)
+            if not ok and c.func.attr in MUTATORS | {"append"}:
+                bad = bad or c
+        if bad is not None:
+            ctx.fail("G10", bad, f._qualname, src(bad)[:90], "the exon list stored for a reference isoform is changed by something else than "
+                     "appending (record.start, record.end) of the transcript's own records: reference transcripts are no longer reproduced "
+                     "verbatim")
+        else:
+            ctx.ok("G10", "%s:%d" % (GI, st.lineno), "all_isoforms_exons[...] is the untransformed list of the transcript's exon records")
+    ctx.floor("G10", "stores into all_isoforms_exons", n, 1)
+
+
 def run(prog, ctx):
+    ctx.rule("G10", "the exon list stored in all_isoforms_exons is a local that starts empty and only receives (record.start, record.end) of "
+                    "the records of the transcript's own children loop - no call transforms it before it is stored")
+    g10(prog, ctx)
+    ctx.rule("G9", "rule I7 of C17 run for C03: with an annotation given, the id distributor scans all gene and transcript ids of the "
+                   "chromosome (a novel transcript must not be printed under a reference transcript's id)")
+    from . import c17 as _c17
+    _c17.i7(prog, ctx, tag="G9")
     ctx.rule("G8", "at every call of TranscriptToGeneJoiner.merge_genes the argument whose records the callee deletes is known (enclosing test "
                    "or preceding assert) not to be a key of gene_info.gene_strands - an annotated gene is never the one merged away")
     g8(prog, ctx)
